@@ -187,6 +187,15 @@ Theorem C01_disjoint_empty_text_refused : forall f ep s gid gid', dget s gid = e
 Proof. exact d_empty_text_refused. Qed.
 Print Assumptions C01_disjoint_empty_text_refused.
 
+(* ================= API-built models ================= *)
+(* harness/c01.py evaluates api_graph_ok inside Coq on every snapshot built through the topology API (slices,
+   substrate sites, ARM and ADM graphs); it implies every hypothesis the theorems above put on the graph *)
+Theorem C01_api_check_implies_domain : forall tbl g, api_graph_ok tbl g = true ->
+  fmt_ok GraphMLFmt g = true /\ fmt_ok JsonFmt g = true /\ graph_ids_ok g = true
+  /\ names_ok tbl = true /\ graph_json_ok g = true /\ graph_json_text_ok tbl g = true.
+Proof. exact api_check_domain. Qed.
+Print Assumptions C01_api_check_implies_domain.
+
 (* ================= the store hypothesis holds in every reachable store ================= *)
 (* store_wf (internal ids distinct and below the counter, edges between stored nodes) is kept by every load ... *)
 Theorem C01_store_invariant_loads : forall ops,
